@@ -18,6 +18,8 @@ use crate::simstream::{RdOp, WrOp};
 #[derive(Clone, Debug, PartialEq, Eq)]
 pub enum BOp {
     SetBody(Vec<u8>),
+    /// set_body with `len` bytes of a fixed pattern (compact form for bodies of megabytes)
+    SetBodyFill(usize, u8),
     SetContentType(u8),
     SetDeprecation,
     SetEncoding,
@@ -44,6 +46,11 @@ impl Recipe {
                 BOp::SetBody(b) => {
                     r.set_body(Body::new(b.clone()));
                     s.set_body(b.clone());
+                }
+                BOp::SetBodyFill(len, k) => {
+                    let b = fill_body(*len, *k);
+                    r.set_body(Body::new(b.clone()));
+                    s.set_body(b);
                 }
                 BOp::SetContentType(m) => {
                     r.set_content_type(if *m == 0 { MediaType::PlainText } else { MediaType::ApplicationJson });
@@ -89,6 +96,7 @@ impl Recipe {
                         .iter()
                         .map(|op| match op {
                             BOp::SetBody(b) => J::Arr(vec![json::s("set_body"), json::hex(b)]),
+                            BOp::SetBodyFill(len, k) => J::Arr(vec![json::s("set_body_fill"), json::u(*len), json::u(*k as usize)]),
                             BOp::SetContentType(m) => J::Arr(vec![json::s("set_content_type"), json::u(*m as usize)]),
                             BOp::SetDeprecation => J::Arr(vec![json::s("set_deprecation")]),
                             BOp::SetEncoding => J::Arr(vec![json::s("set_encoding")]),
@@ -116,6 +124,7 @@ impl Recipe {
             let k = a.first().and_then(|x| x.str()).ok_or("op kind")?;
             program.push(match k {
                 "set_body" => BOp::SetBody(a.get(1).and_then(|x| x.bytes()).ok_or("body")?),
+                "set_body_fill" => BOp::SetBodyFill(a.get(1).and_then(|x| x.usize()).ok_or("len")?, a.get(2).and_then(|x| x.usize()).unwrap_or(0) as u8),
                 "set_content_type" => BOp::SetContentType(a.get(1).and_then(|x| x.usize()).ok_or("ct")? as u8),
                 "set_deprecation" => BOp::SetDeprecation,
                 "set_encoding" => BOp::SetEncoding,
@@ -139,6 +148,15 @@ impl Recipe {
             v.push(r);
         }
         for (i, op) in self.program.iter().enumerate() {
+            if let BOp::SetBodyFill(len, k) = op {
+                for nl in [len / 2, len - len / 4, len.saturating_sub(1)] {
+                    if nl < *len {
+                        let mut r = self.clone();
+                        r.program[i] = BOp::SetBodyFill(nl, *k);
+                        v.push(r);
+                    }
+                }
+            }
             if let BOp::SetBody(b) = op {
                 for (x, y) in removal_ranges(b.len(), 10) {
                     let mut r = self.clone();
@@ -156,6 +174,11 @@ impl Recipe {
         }
         v
     }
+}
+
+/// `len` bytes of a pattern that never repeats with a short period and contains CR, LF and NUL
+pub fn fill_body(len: usize, k: u8) -> Vec<u8> {
+    (0..len).map(|i| ((i as u64).wrapping_mul(2_654_435_761).wrapping_add(k as u64) >> 7) as u8).collect()
 }
 
 fn gen_body(rng: &mut Rng, max: usize) -> Vec<u8> {
@@ -351,6 +374,22 @@ impl Prop for C06 {
         let burst = rng.chance(1, 3);
         // a third of the runs also read between writes (a duplex owner)
         let duplex = rng.chance(1, 3);
+        if !cfg!(miri) && rng.chance(1, 2500) {
+            // mega: a response body of 1..3 MiB (beyond any "large body" threshold someone might pick)
+            // pushed out through writes of tens to hundreds of KiB, with a small response behind it
+            let len = *rng.pick(&[1usize << 20, (1 << 20) + 1, (1 << 20) + 4097, 1_500_000, 2 << 20, (2 << 20) + 17, 3_000_000]);
+            steps.push(WStep::Enq(Recipe { version: 1, code: 200, program: vec![BOp::SetBodyFill(len, rng.below(256) as u8)] }));
+            steps.push(WStep::Enq(gen_recipe(rng, 2, 64)));
+            let mut left = len + 200;
+            while left > 0 {
+                let k = rng.range(10_000, 900_000);
+                steps.push(WStep::Wr(WrOp::Accept(k)));
+                left = left.saturating_sub(k);
+            }
+            steps.push(WStep::Wr(WrOp::Accept(usize::MAX)));
+            steps.push(WStep::Wr(WrOp::Accept(usize::MAX)));
+            return WrCase { steps }.to_json();
+        }
         if rng.chance(1, 40) {
             // a healthy burst: dozens of small responses queued before the first write
             for _ in 0..rng.range(20, 70) {
@@ -809,7 +848,14 @@ impl Prop for C05 {
     fn gen_inner(&self, rng: &mut Rng, _tier: Tier, _index: u64) -> J {
         let n = 1 + rng.weighted(&[50, 25, 15, 10]);
         let big = rng.chance(1, 50);
-        let recipes = (0..n).map(|_| gen_recipe(rng, 5, if big { 65536 } else { 2048 })).collect();
+        let mut recipes: Vec<Recipe> = (0..n).map(|_| gen_recipe(rng, 5, if big { 65536 } else { 2048 })).collect();
+        if !cfg!(miri) && rng.chance(1, 2500) {
+            // mega: a body of 1..3 MiB, in front of the others
+            let len = *rng.pick(&[1usize << 20, (1 << 20) + 1, 1_500_000, 2 << 20, 3_000_000]);
+            recipes.insert(0, Recipe { version: 1, code: 200, program: vec![BOp::SetBodyFill(len, rng.below(256) as u8)] });
+            let sink = vec![WrOp::Accept(rng.range(50_000, 700_000)), WrOp::Eintr, WrOp::Accept(usize::MAX)];
+            return RespCase { recipes, sink, fail_after: None }.to_json();
+        }
         let sink = match rng.below(5) {
             0 => vec![],
             1 => vec![WrOp::Accept(1)],
@@ -848,6 +894,7 @@ impl Prop for C05 {
             for op in &recipe.program {
                 sig.u(match op {
                     BOp::SetBody(b) => 10 + (b.len().min(3)) as u64,
+                    BOp::SetBodyFill(..) => 14,
                     BOp::SetContentType(m) => 20 + *m as u64,
                     BOp::SetDeprecation => 30,
                     BOp::SetEncoding => 31,
